@@ -43,6 +43,9 @@ def branch_atoms(fn, resolve_locals=False):
     return out
 
 
+ASSERT_MACROS = ("ASMJIT_ASSERT", "ASMJIT_ASSUME", "ASMJIT_NOT_REACHED")
+
+
 class Must:
     def __init__(self, fn, elem_fx=None, edge_fx=None, init=frozenset(), resolve_locals=False, pseudo=False):
         """elem_fx(eid, x) -> (adds, kills) or None;  edge_fx(block, succ_index, atom, holds) -> adds
@@ -87,7 +90,12 @@ class Must:
         if key not in self.edge_cache:
             atom, pol = self.atoms[b]
             holds = (si == 0) == pol
-            self.edge_cache[key] = frozenset(self.edge_fx(b, si, atom, holds) or ())
+            ax = self.fn.e(atom)
+            if ax is not None and ax.get("m") in ASSERT_MACROS:
+                # the condition of an assertion is not a check: release builds do not evaluate it
+                self.edge_cache[key] = frozenset()
+            else:
+                self.edge_cache[key] = frozenset(self.edge_fx(b, si, atom, holds) or ())
         adds = self.edge_cache[key]
         return st | adds if adds else st
 
